@@ -415,7 +415,15 @@ class _NP:
     def where(self, c, a=None, b=None):
         if a is None:
             raise paths.OutOfReach("np.where with one argument")
-        return _ew(lambda cc, u, v: wrap(sp.Piecewise((to_expr(u), to_bool(cc)), (to_expr(v), True))), c, a, b)
+        def ite(cc, u, v):
+            u, v, cc = to_expr(u), to_expr(v), to_bool(cc)
+            if cc is sp.true:
+                return wrap(u)
+            if cc is sp.false:
+                return wrap(v)
+            from .sym import select
+            return wrap(select([(u, cc), (v, True)]))
+        return _ew(ite, c, a, b)
 
     def isscalar(self, x):
         return is_scalar_like(x)
